@@ -326,7 +326,7 @@ func main() {
 		}
 		c := gen(mon.Seed(), i)
 		res.LogCase("case %d max=%d sync=%d ops=%d", i, c.MaxBytes, c.SyncEvery, len(c.Ops))
-		runCase(res, c, dir)
+		runCase(res, c, fmt.Sprintf("%s-%d", dir, i)) // own directory: a queue left behind by a violating case must not disturb the next one
 		res.Eval(1)
 		res.Count("operations", len(c.Ops))
 		if ran < 1 {
@@ -339,7 +339,7 @@ func main() {
 			continue
 		}
 		res.LogCase("concurrent %d", i)
-		runConcurrent(res, i, dir)
+		runConcurrent(res, i, fmt.Sprintf("%s-c%d", dir, i))
 		res.Eval(1)
 		res.Count("concurrent_histories", 1)
 	}
